@@ -298,6 +298,10 @@ func VerifC09dMemRecords() {
 			mask := 1 + op%3 // which addresses the record lists
 			seq := uint64(vRange(0, 3))
 			ttl := vC09ttls[op/3] // Temp or RecentlyConnected
+			if i == 0 && vBool() {
+				ttl = 0 // a record consumed with a non-positive TTL brings no addresses: it must not linger and come back later
+				vCover("record-consumed-with-a-non-positive-ttl")
+			}
 			rec := &peer.PeerRecord{PeerID: vC09peer, Seq: seq}
 			for b := 0; b < 2; b++ {
 				if mask&(1<<b) != 0 {
@@ -330,7 +334,7 @@ func VerifC09dMemRecords() {
 				ref.rec, ref.recSeq = true, seq
 				for b := 0; b < 2; b++ {
 					ref.recAddrs[b] = mask&(1<<b) != 0
-					if ref.recAddrs[b] {
+					if ref.recAddrs[b] && ttl > 0 {
 						ref.add(b, ttl, now)
 					}
 				}
